@@ -648,7 +648,10 @@ pub fn judge(case: &ConcCase, r: &ConcResult) -> Verdicts {
         f.push(format!("[livelock] step budget exceeded ({} steps); still running: {:?}", r.outcome.steps, r.outcome.blocked));
     }
     for t in &r.panicked {
-        f.push(format!("[panic] thread {} panicked", t));
+        // the operation in flight: the first one of the thread's program that did not complete
+        let done = r.calls.iter().filter(|c| c.tid == *t).count();
+        let op = case.programs.get(*t).and_then(|p| p.get(done)).map(|o| o.text()).unwrap_or_default();
+        f.push(format!("[panic] thread {} panicked inside `{}`", t, op));
     }
     if let Some(b) = &r.outcome.solo_blocked {
         f.push(format!("[read-blocks] a read running alone (all other threads suspended) was not enabled: {}", b));
@@ -1028,17 +1031,23 @@ pub fn gen_conc_mode(id: usize, seed: u64, tier_big: bool, mode: &str) -> ConcCa
             // `clear` running bottom-up while a resize runs top-down, and concurrent inserts
             let hc = *rng.pick(&["ident", "uniform", "alternate", "zero"]);
             let hashes = crate::gen::gen_hashes(&mut rng, hc, 60);
-            let cap = *rng.pick(&[0usize, 0, 1, 5, 10]);
+            // 16-bin tables (one stride) and 32 / 64-bin tables (helpers forward bins out of order,
+            // so `clear` can meet a forwarding marker below a bin that is being transferred)
+            let cap = *rng.pick(&[0usize, 0, 1, 5, 10, 16, 16, 42]);
             let tl = if cap == 0 { 16 } else { (cap + cap / 2 + 1).next_power_of_two() };
             let thr = tl - tl / 4;
-            let pre = thr.saturating_sub(1 + rng.below(3) as usize).min(24);
+            let pre = thr.saturating_sub(1 + rng.below(3) as usize).min(47);
             let prefill: Vec<(u32, u64, u32)> = (0..pre).map(|i| ((i + 1) as u32, rng.below(5), fresh())).collect();
             let mut programs = vec![vec![COp::Clear]];
             if rng.chance(1, 4) {
                 programs[0].push(COp::Len);
             }
+            if rng.chance(1, 2) {
+                // a reader that (mostly) starts after the clear
+                programs[0].push(COp::Get(1 + rng.below(pre as u64 + 1) as u32));
+            }
             let mut next_key = pre as u32;
-            for _ in 0..(1 + rng.below(2) as usize) {
+            for _ in 0..(1 + rng.below(if tl > 16 { 3 } else { 2 }) as usize) {
                 let mut p = vec![];
                 for _ in 0..(1 + rng.below(4)) {
                     p.push(match rng.below(6) {
